@@ -30,7 +30,7 @@ missed = [l.split('|')[1].strip() for l in rows if 'not reported' in l]
 tot = sum(x[0] for x in b)
 rep = sum(x[1] for x in b)
 a = s.index('### 11.6 Seeded changes: which check catches which')
-e = s.index("---------------------------------------------------------------------------\n\n## A. Feasibility spikes")
+e = s.index('### 11.7 ') if '### 11.7 ' in s else s.index("---------------------------------------------------------------------------\n\n## A. Feasibility spikes")
 new = '''### 11.6 Seeded changes: which check catches which
 
 **Where the changes come from.** Five batches of independent sub-agents, each agent given only the text of one
